@@ -83,6 +83,17 @@ func Spec(prop, tier string) *core.CheckSpec {
 			Stub:   []string{"goroutine scheduling decisions (controlled scheduler)", "host callbacks emit/probe"},
 			Assume: []string{"reference interpreter as for C10; positions of errors raised by host functions in tail-call position are not specified and not generated"},
 		}
+	case "C03":
+		return &core.CheckSpec{
+			Property: "C03", Level: "exploration",
+			Rule: "seeded operation histories (set/clear/reset/get/next/len, index through __index, bursts of integer keys moving keys between array and hash part, clear-all-then-reinsert) over 1-2 tables and a pool of ~80 keys (small/large ints, integer-valued and fractional floats, -0.0, +-inf, short/long strings and separately built equal copies, booleans, tables, Go functions, equal-by-value closures, a coroutine); two traversal cursors per table whose steps the tape interleaves with the mutator (restricted to assigning/clearing existing fields while a traversal is open); quota kills landing inside assignments. Oracle after every operation: every pool key reads the reference map's value, #t is a border, completed traversals visited each key present throughout exactly once and none absent throughout, raw equality agrees with key identity for every pair. non-trivial = history of at least 5 operations or a kill landed; distinct = hash of the history",
+			Batches: []core.Batch{
+				{Engine: "table", Mode: "", Runs: n(60000, 6000000), Millis: ms(40000, 900000), Chunk: 5000},
+			},
+			Real:   []string{"runtime.Table / mixedTable (array + coalesced hash), Runtime.SetTable, Index/SetIndex, RawEqual, Value.Hash/Equals, unmodified"},
+			Stub:   []string{"the order in which mutator and traversers take turns (tape)", "limits of the contexts pushed around single assignments"},
+			Assume: []string{"hash-seed dependent slot layout cannot be seeded; it varies with the worker process only"},
+		}
 	case "C07":
 		return &core.CheckSpec{
 			Property: "C07", Level: "exploration",
